@@ -158,7 +158,7 @@ def h_e_texts(si: int, extra: int, header: bool, varnames: bool, di: int, li: in
 
 # -------------------------------------------------------------- reader on arbitrary menu texts
 MENU = ['', 'c comment', 'p cnf 2 1', 'p cnf 2 2', 'p cnf 0 0', 'p cnf 2', 'p cnf -1 1', 'p cnf x 1', '1 -2 0', '1 2', '0', '3 0',
-        '1 x 0', '-1 0 2 0', 'c p cnf 9 9', '  -2 0  ', '1 0 garbage', 'p cnf 3 3', '-3 1 0 0', 'p cnf 2 1 1']
+        '1 x 0', '-1 0 2 0', 'c p cnf 9 9', '  -2 0  ', '1 0 garbage', 'p cnf 3 0', '-3 1 0 0', 'p cnf 2 1 1']
 
 
 def _read_menu(idx, trailing_newline):
@@ -542,3 +542,32 @@ def h_e_big(si: int, header: bool, varnames: bool, width: int) -> bool:
     post: _
     """
     return untraced(_big, pick(si, 0, 12), pickb(header), pickb(varnames), pick(width, 0, 3))
+
+
+def _two_reads(a1, a2, a3, b1, b2, b3):
+    """two texts read one after the other in the same process: the second result does not depend on the first
+    (in particular not on a first read that failed half way through a clause)"""
+    ta = '\n'.join(MENU[i] for i in (a1, a2, a3)) + '\n'
+    tb = '\n'.join(MENU[i] for i in (b1, b2, b3)) + '\n'
+    try:
+        CNF.from_file(io.StringIO(ta))
+    except ValueError:
+        pass
+    want = strict_read(tb)
+    try:
+        F = CNF.from_file(io.StringIO(tb))
+    except ValueError:
+        return want is None
+    return want is not None and F.number_of_variables() == want[0] and [list(c) for c in F.clauses()] == want[1]
+
+
+FIRST = [[2, 9, 9], [3, 8, 9], [2, 12, 0], [3, 13, 11], [2, 8, 0], [5, 0, 0], [17, 9, 1], [3, 9, 12]]
+
+
+def h_e_two_reads(fa: int, b1: int, b2: int, b3: int) -> bool:
+    """
+    pre: 0 <= fa <= 7 and 2 <= b1 <= 4 and 0 <= b2 <= 19 and 0 <= b3 <= 19
+    post: _
+    """
+    a = FIRST[pick(fa, 0, 7)]
+    return untraced(_two_reads, a[0], a[1], a[2], pick(b1, 2, 4), pick(b2, 0, 19), pick(b3, 0, 19))
